@@ -132,7 +132,7 @@ def realnet_pass(ctx, res):
     from ..realnet import orch
     for k in range(1 if ctx.quick else 10):
         rng = ctx.rng('realnet', k)
-        scn = scenarios.gen_general(rng, rng.randrange(1 << 30), faults=('kill', 'late'))
+        scn = scenarios.gen_general(rng, rng.randrange(1 << 30), faults=('kill', 'late'), tcp=False)      # real sockets: 16 shards share one machine, so no fixed TCP ports here
         scn.pop('loss', None)
         if (ctx.shard + k) % 2 == 0:
             # camera-like producer: big raw frames rendered into one reused buffer, fast, several consumers of the raw bytes
